@@ -337,6 +337,26 @@ _NEVER_NONE = frozenset({"random.uniform", "random.random", "random.randint", "l
                          "asyncio.get_running_loop", "asyncio.create_task", "struct.pack", "struct.Struct", "isinstance"})
 
 
+def _unique_namedtuple_fields(prog) -> t.Dict[str, t.Tuple[str, int]]:
+    """field name -> (NamedTuple class, index) for names that belong to exactly one NamedTuple of the package and are
+    no attribute, field or method of any other package class and no method of tuple itself"""
+    cache = getattr(prog, "_nt_unique", None)
+    if cache is not None:
+        return cache
+    owners: t.Dict[str, t.List[t.Tuple[str, int]]] = {}
+    taken: t.Set[str] = set(dir(tuple))
+    for q, ci in prog.classes.items():
+        if getattr(ci, "is_namedtuple", False):
+            for i, f in enumerate(prog.all_fields(q)):
+                owners.setdefault(f.name, []).append((q, i))
+            taken |= set(ci.methods)
+        else:
+            taken |= set(ci.fields) | set(ci.methods) | set(ci.attr_init) | set(ci.attr_ann) | set(ci.consts)
+    out = {n: o[0] for n, o in owners.items() if len(o) == 1 and n not in taken}
+    prog._nt_unique = out
+    return out
+
+
 def _elem_term(it, site, n, symbolic_index=False):
     """the n-th element drawn from iterable term `it`.  enumerate(X[, start]) and zip(A, B, ..) are looked through:
     their n-th element is the pair (n + start, n-th of X) resp. the tuple of n-th elements, so that an index
@@ -674,6 +694,8 @@ class Engine:
         self.unresolved: t.List[Event] = []
         self._closures: t.Dict[int, t.Tuple[FuncInfo, t.Dict]] = {}
         self._budget = 0
+        self._nt_terms: t.Dict[tuple, str] = {}
+        self._nt_unique: t.Dict[str, t.Tuple[str, int]] = _unique_namedtuple_fields(prog)
 
     # ------------------------------------------------------------------ helpers
     def is_listener_iface(self, qual: str) -> bool:
@@ -1699,7 +1721,7 @@ class Engine:
             node = g[3]
             if isinstance(node, ast.Constant):
                 return const(node.value)
-            if _immutable_literal(node) and g[2] not in mi.rebound:
+            if (_immutable_literal(node) or self._namedtuple_literal(node, mi)) and g[2] not in mi.rebound:
                 # module level tuple of constants / enum members: its value, not its name
                 v = self._eval_in_module(node, mi)
                 if v[0] != "unknown":
@@ -1721,10 +1743,45 @@ class Engine:
             return ("attr", ("cls", g[1]), g[2])
         return ("unknown", ("global",))
 
+    def _nt_field(self, base, attr):
+        """(class, index) if `base.attr` reads a NamedTuple field: the instance term is known, or base is typed as
+        the NamedTuple, or attr names a field of exactly one NamedTuple of the package and nothing else"""
+        cq = self._nt_terms.get(base) if base[0] == "tuple" else None
+        if cq is None:
+            ty = self.typer.type_of(base)
+            if ty and ty[0] == "cls" and getattr(self.prog.classes.get(ty[1]), "is_namedtuple", False):
+                cq = ty[1]
+        if cq is not None:
+            names = [f.name for f in self.prog.all_fields(cq)]
+            return (cq, names.index(attr)) if attr in names else (cq, None)
+        if base[0] in ("call", "item", "elem", "var", "param", "await") and attr in self._nt_unique:
+            return self._nt_unique[attr]
+        return None
+
     def _load_attr(self, base, attr, node, s: _State, fi: FuncInfo, depth, ch):
         # heap (flow sensitive attribute values on this path)
         if (base, attr) in s.heap:
             return s.heap[(base, attr)]
+        nt = self._nt_field(base, attr)
+        if nt is not None:
+            cq, idx = nt
+            if idx is not None:
+                if base[0] == "tuple" and idx < len(base[1]):
+                    return base[1][idx]
+                return ("item", base, const(idx))
+            m = self.prog.lookup_method(cq, attr)
+            if m is not None:
+                if m.kind == "property":
+                    ev_ = self._event("call", node, fi, depth, s)
+                    ev_.fterm = ("bound", base, m.qual)
+                    ev_.targets = [m]
+                    ev_.recv = base
+                    ev_.attrname = attr
+                    if self.policy.inline_properties or self.is_unknown_helper(m):
+                        return self._inline(m, base, cq, (), (), ev_, node, s, fi, depth, ch)
+                    ev_.result = ("call", ("bound", base, m.qual), (), (), self.site(node, fi, s))
+                    return ev_.result
+                return ("bound", base, m.qual)
         tag = base[0]
         if tag == "mod":
             if base[1] == "":
@@ -1849,6 +1906,17 @@ class Engine:
             else:
                 return None
         return out
+
+    def _namedtuple_literal(self, node, mi) -> bool:
+        """module level `NAME = SomeNamedTuple(<constants / enum members>)`: an immutable record"""
+        if not isinstance(node, ast.Call) or dotted(node.func) is None:
+            return False
+        g = self.prog.resolve_global(mi, dotted(node.func))
+        if not g or g[0] != "class" or not getattr(self.prog.classes[g[1]], "is_namedtuple", False):
+            return False
+        parts = list(node.args) + [k.value for k in node.keywords]
+        return all(isinstance(e, ast.Constant) or _immutable_literal(e) or
+                   (isinstance(e, (ast.Attribute, ast.Name)) and dotted(e) is not None) for e in parts)
 
     def _eval_in_module(self, node, mi):
         fake = FuncInfo.__new__(FuncInfo)
@@ -1991,11 +2059,9 @@ class Engine:
 
     def _call_function(self, f, args, kwargs, site, node, s: _State, fi: FuncInfo, depth, ch,
                        awaited=False, prop=False):
-        if f[0] == "attr" and f[2] == "_asdict" and not args and not kwargs:
-            ntv = self.namedtuple_values(f[1])
-            if ntv is not None:
-                names = [fl.name for fl in self.prog.all_fields(f[1][1])]
-                return ("dict", tuple((const(n), v) for n, v in zip(names, ntv)))
+        if f[0] == "attr" and f[2] == "_asdict" and not args and not kwargs and f[1][0] == "tuple" and f[1] in self._nt_terms:
+            names = [fl.name for fl in self.prog.all_fields(self._nt_terms[f[1]])]
+            return ("dict", tuple((const(n), v) for n, v in zip(names, f[1][1])))
         # calling a functools.partial object calls the wrapped callable with the bound arguments first
         if f[0] == "call" and f[1] == ("ext", "functools.partial") and f[2]:
             return self._call_function(f[2][0], tuple(f[2][1:]) + tuple(args), tuple(f[3]) + tuple(kwargs), site, node, s, fi,
@@ -2253,6 +2319,30 @@ class Engine:
             e.result = res
             return res
         init = self.prog.lookup_method(cq, "__init__")
+        if getattr(ci, "is_namedtuple", False):
+            # a NamedTuple instance IS the tuple of its field values (indexing, unpacking, star-args and comparison
+            # work on it as on any tuple); the class is remembered on the side for field names and methods
+            given = {}
+            names = [f.name for f in self.prog.all_fields(cq)]
+            for n, v in zip(names, args):
+                given[n] = v
+            for k, v in kwargs:
+                given[k] = v
+            vals = []
+            for f in self.prog.all_fields(cq):
+                if f.name in given:
+                    vals.append(given[f.name])
+                elif f.default is not None:
+                    vals.append(self._eval_in_class(f.default, cq))
+                else:
+                    vals = None
+                    break
+            if vals is not None:
+                res = ("tuple", tuple(vals))
+                self._nt_terms[res] = cq
+                e.result = res
+                e.ext = None
+                return res
         if init is None and self.prog.is_dataclass(cq):
             fields = [f for f in self.prog.all_fields(cq)]
             vals = {}
